@@ -267,10 +267,57 @@ def unit_schemes(ctx, schemes):
             ctx.call(lambda: check_pi4_1d(ctx, s), "C06.scheme_raises", {**s, "layout": "1d"}, {"scheme": s, "layout": "1d"}, checker="c06:replay_pi4_1d")
 
 
+def unit_cross_instance(ctx, family):
+    """All options of one family in one process, used interleaved in both orders: soft/hard outputs of one instance must not depend on others."""
+    import torch
+    schemes = [s for s in mc.all_schemes() if s["scheme"] == family or (family == "dpsk" and s["scheme"] in ("dbpsk", "dqpsk"))]
+    if family == "psk":
+        schemes = [s for s in schemes if s["order"] <= 16]
+    built = [(s, *mc.build(s)) for s in schemes]
+    rng = np.random.RandomState(ctx.seed + 33)
+    for order_name, seq in (("forward", built), ("reverse", built[::-1])):
+        for s, mod, dem in seq:
+            cell = {**s, "mode": "cross_instance"}
+            pts, lab = ref_table(s, mod, 0)
+            b = mc.bits_per_symbol(s)
+            span = max(np.abs(pts).max(), 1.0)
+            Y = ((rng.randn(60) + 1j * rng.randn(60)) * span * 0.7).astype(np.complex64)
+            Z = Y.astype(np.complex128)
+            if mc.kind(s) == "differential":
+                Z = Z / (np.abs(Z) + 1e-9)
+            D = np.abs(Z[:, None] - pts[None, :].astype(np.complex128)) ** 2
+            ok, hard = ctx.call(lambda: demod_points(s, dem, Y), "C06.a_raises", cell, {"scheme": s, "mode": "cross_instance"}, checker="c06:replay_cross")
+            if ok:
+                hard = np.rint(hard).astype(int)
+                match = (lab[None, :, :] == hard[:, None, :]).all(axis=2)
+                good = (match & (np.sqrt(D) <= np.sqrt(D.min(axis=1))[:, None] + TOL)).any(axis=1)
+                ctx.ev(len(Y))
+                ctx.nontrivial(cell, order_name)
+                ctx.check(bool(good.all()), "C06.a_nearest", cell, {"scheme": s, "mode": "cross_instance", "order": order_name}, int((~good).sum()), 0,
+                          "hard decision is not a nearest point when other instances of the family were used before in the same process", "c06:replay_cross")
+            D0 = np.stack([np.where(lab[:, j] == 0, D, np.inf).min(axis=1) for j in range(b)], axis=1)
+            D1 = np.stack([np.where(lab[:, j] == 1, D, np.inf).min(axis=1) for j in range(b)], axis=1)
+            diff = D1 - D0
+            ok, llr = ctx.call(lambda: demod_points(s, dem, Y, 0.7), "C06.b_raises", cell, {"scheme": s, "mode": "cross_instance"}, checker="c06:replay_cross")
+            if ok:
+                well = np.abs(diff) > 1e-3
+                bad = well & (np.sign(llr) != np.sign(diff))
+                ctx.ev(int(well.sum()))
+                ctx.check(not bad.any(), "C06.c_sign", cell, {"scheme": s, "mode": "cross_instance", "order": order_name}, int(bad.sum()), 0,
+                          "LLR sign is wrong when other instances of the family were used before in the same process", "c06:replay_cross")
+    ctx.sample({"family": family, "instances_in_one_process": len(built)})
+
+
+def replay_cross(ctx, cell, case):
+    unit_cross_instance(ctx, case["scheme"]["scheme"] if case["scheme"]["scheme"] not in ("dbpsk", "dqpsk") else "dpsk")
+
+
 def units(tier, seed):
     sch = [s for s in mc.all_schemes() if s["scheme"] != "identity"]
     us = []
     for s in sch:
         w = 8 if s["scheme"] == "psk" else (3 if s.get("order", 2) >= 64 else 1)
         us.append(Unit("scheme_" + "_".join(f"{k}{v}" for k, v in s.items()), "c06:unit_schemes", {"schemes": [s]}, w * (1 + s.get("order", 2) / 16)))
+    for fam in ("psk", "qam", "pam", "dpsk", "qpsk", "oqpsk"):
+        us.append(Unit("cross_instance_" + fam, "c06:unit_cross_instance", {"family": fam}, 3))
     return us
